@@ -499,6 +499,13 @@ namespace
         if (qx::cmp(l, lb[a.x]) > 0) lb[a.x] = l;
       }
     }
+    for (auto &b : n.probe.bounds) // bounds a client theory sets whenever their literal is true (the executor's protocol)
+      if (b.v < nv && n.sat.value(b.p) == True)
+      {
+        E v = toE(b.val);
+        if (b.lower && qx::cmp(v, lb[b.v]) > 0) lb[b.v] = v;
+        if (!b.lower && qx::cmp(v, ub[b.v]) < 0) ub[b.v] = v;
+      }
     for (size_t i = 0; i < nv; ++i)
     {
       E glb = toE(n.lra.lb(i)), gub = toE(n.lra.ub(i));
@@ -743,6 +750,88 @@ namespace
             n.settle();
           }
         }
+        // the same calls with an arbitrary reason literal and arbitrary values, possibly infeasible (end of the creation phase of
+        // round >= 1, so that standing structure exists): the executor's protocol. A bound the constraints allow must be
+        // accepted; when the call fails, the explanation it leaves behind must follow from the constraints and "reason => bound".
+        if (o.get("setb", "") == "1" && rd >= 1 && !g.lra_vars.empty() && !n.dead && t.rare(1, 2))
+        {
+          n.settle();
+          std::vector<lit> reasons{TRUE_lit};
+          for (auto &p : n.all_lits)
+            if (n.sat.value(p) == True) reasons.push_back(p);
+            else if (n.sat.value(p) == False) reasons.push_back(!p);
+          int k = t.range(1, 3);
+          for (int i = 0; i < k && !n.dead && !r.violation; ++i)
+          {
+            lit p = reasons[t.pick(reasons.size())];
+            size_t v = g.lra_vars[t.pick(g.lra_vars.size())];
+            bool lower = t.flip();
+            mpq_class val = g.konst();
+            z3::expr c = lower ? n.zlra.at(v) >= n.zq(val) : n.zlra.at(v) <= n.zq(val);
+            z3::expr imp = z3::implies(n.zl(p), c);
+            bool feasible = n.zcheck({c}) == z3::sat; // root level: no standing decisions
+            record_creation_bounds(n, lref);
+            n.log << "  set_" << (lower ? "lb" : "ub") << "(x" << v << ", " << val.get_str() << ", " << ls(p) << ")" << (feasible ? "" : "  [not satisfiable together with the constraints]") << "\n";
+            r.classes.insert(feasible ? "bound set with a reason literal" : "infeasible bound set with a reason literal");
+            bool keep = n.check_lemmas;
+            if (feasible) n.add_phi(imp);
+            else n.check_lemmas = false; // lemmas recorded inside the call follow from a bound the model does not have yet
+            bool ok = lower ? n.lra.set_lb(v, inf_rational(toR(val)), p) : n.lra.set_ub(v, inf_rational(toR(val)), p);
+            n.check_lemmas = keep;
+            n.log << "    -> " << (ok ? "true" : "false") << "\n";
+            if (ok && v < lref.creation.size())
+            { // the reason is assigned at root level, so the bound stays for good
+              E b{Q(val)};
+              if (lower && qx::cmp(b, lref.creation[v].first) > 0) lref.creation[v].first = b;
+              if (!lower && qx::cmp(b, lref.creation[v].second) < 0) lref.creation[v].second = b;
+            }
+            if (feasible)
+            {
+              if (!ok) { n.violation(std::string("set_") + (lower ? "lb" : "ub") + " with a reason literal returned false although the constraints allow the bound"); break; }
+              n.dirty = true;
+              n.settle();
+            }
+            else if (!ok)
+            { // the explanation the theory leaves for its client
+              std::vector<lit> cl = n.probe.take(n.lra);
+              n.log << "    explanation " << n.cls(cl) << "\n";
+              std::vector<z3::expr> ex = n.impl_defs();
+              ex.push_back(imp);
+              for (auto &q : cl) ex.push_back(!n.zl(q));
+              if (n.zcheck(ex) == z3::sat)
+                n.violation("the explanation " + n.cls(cl) + " of a failed set_" + (lower ? "lb" : "ub") + "(x" + std::to_string(v) + ", " + val.get_str() + ", " + ls(p) + ") does not follow from the constraints and the bound's reason");
+              r.classes.insert("explanation of a failed bound checked");
+              n.dead = true; // the client would now backjump; the history ends here
+            }
+            else
+            { // accepted for now: the inconsistency is for the next propagation to find
+              n.add_phi(imp);
+              n.dirty = true;
+              n.settle();
+            }
+          }
+        }
+      }
+      if (use_lra && o.get("setb", "") == "1" && !g.lra_vars.empty() && !n.dead && t.rare(1, 2))
+      { // bounds in the hands of a client theory (the executor's protocol): "whenever literal p is true, x >= c (x <= c)". The
+        // client sets the bound from its propagate() callback with p as the reason; when the call fails it passes the theory's
+        // explanation on to the sat core as its own conflict. In the model: p => bound, for good.
+        n.settle();
+        n.probe.lra = &n.lra;
+        int k = t.range(1, 3);
+        for (int i = 0; i < k && !n.dead; ++i)
+        {
+          lit p = g.any_lit(false);
+          for (int j = 0; j < 4 && n.sat.value(p) != Undefined; ++j) p = g.any_lit(false);
+          if (n.sat.value(p) != Undefined) continue;
+          size_t v = g.lra_vars[t.pick(g.lra_vars.size())];
+          bool lower = t.flip();
+          mpq_class val = g.konst();
+          n.add_phi(z3::implies(n.zl(p), lower ? n.zlra.at(v) >= n.zq(val) : n.zlra.at(v) <= n.zq(val)));
+          n.probe.watch(p, v, lower, inf_rational(toR(val)));
+          n.log << "  client bound: whenever " << ls(p) << " then x" << v << (lower ? " >= " : " <= ") << val.get_str() << "\n";
+          r.classes.insert("bound set by a client theory when its literal becomes true");
+        }
       }
       if (use_idl)
       {
@@ -884,6 +973,8 @@ namespace
     (void)multi_hop;
     r.counters["conflicts"] = n.n_conflicts;
     r.counters["theory_lemmas"] = n.n_theory_lemmas;
+    r.counters["client_bounds_set_during_propagation"] = n.probe.fired;
+    r.counters["client_bound_conflicts_handed_to_the_core"] = n.probe.conflicts;
     r.counters["theory_conflicts"] = n.n_theory_conflicts;
     r.counters["next"] = n.n_next;
     r.counters["z3_queries"] = n.n_z3;
